@@ -251,7 +251,7 @@ DEFAULT_PROFILE: Dict[str, Any] = {
     "search_type": None,  # None = nearest_shortest_queue (9 of 10) or shortest_time_to_charge
     "idle_time_out": None,
     "colocate": 0.25,
-    "starts": [0, 0, 1000, 3600, 43200, 86399],
+    "starts": [0, 0, 900, 1000, 3600, 9900, 43200, 86399, 99900],  # 900 / 9900 / 99900: epoch times change their number of digits during the run
 }
 
 
